@@ -149,12 +149,31 @@ func (o *crOut) judgeError(site string, err error, input []byte) {
 		o.add("c16", "line-column:"+where+":"+site, fmt.Sprintf("%s: index %d of %q is line %d column %d, diagnostic says line %d column %d", site, idx, text, line, col, je.Line(), je.Column()))
 		return
 	}
-	quoted := strings.TrimLeft(lineText, " \t")
-	if len(quoted) > 150 {
-		quoted = quoted[:150]
+	// the rendering quotes the line: after "> " comes the line without its indentation - or, for a long line, a
+	// beginning of it followed by "..." - and then the pointer line, nothing else
+	trimmed := strings.TrimLeft(lineText, " \t")
+	k := strings.Index(msg, "\n\t> ")
+	if k < 0 {
+		o.add("c16", "line-not-quoted:"+where+":"+site, fmt.Sprintf("%s: rendering %.300q has no quoted line (%q)", site, msg, trimmed))
+		return
 	}
-	if !strings.Contains(msg, quoted) {
-		o.add("c16", "line-not-quoted:"+where+":"+site, fmt.Sprintf("%s: rendering %.300q does not quote the line %q", site, msg, quoted))
+	rest := msg[k+4:]
+	q := rest
+	after := ""
+	if e := strings.IndexAny(rest, "\n"); e >= 0 {
+		q, after = rest[:e], rest[e+1:]
+	}
+	q = strings.TrimRight(q, "\r")
+	okQuote := strings.TrimSpace(q) == strings.TrimSpace(trimmed)
+	if !okQuote && strings.HasSuffix(q, "...") && len(lineText) > 150 {
+		okQuote = strings.HasPrefix(trimmed, strings.TrimLeft(strings.TrimSuffix(q, "..."), " \t"))
+	}
+	if !okQuote {
+		o.add("c16", "line-not-quoted:"+where+":"+site, fmt.Sprintf("%s: rendering %.300q quotes %.200q, the line is %.200q", site, msg, q, trimmed))
+		return
+	}
+	if n := strings.Count(strings.TrimRight(after, "\n"), "\n"); n > 0 || !strings.Contains(after, "^") {
+		o.add("c16", "rendering-shape:"+where+":"+site, fmt.Sprintf("%s: after the quoted line the rendering has %.200q instead of one pointer line (%.300q)", site, after, msg))
 	}
 }
 
